@@ -1,11 +1,17 @@
-import GuppyVerif.Lemmas.C06Term
-import GuppyVerif.Model.Linearity
-/-! C06 helper lemmas, part 7: the fuel `liveFuel` of the model's liveness run always suffices. -/
+import GuppyVerif.Lemmas.C06Flow
+/-! C06 helper lemmas, part 7: the fuel `liveFuel` of the model's liveness run always suffices —
+    an instance of the C09 theorem `liveRun_terminates` (the model cannot import `liveBound`,
+    which lives with the C09 theorems, so it carries its own, larger, bound). -/
 namespace GuppyVerif.Linearity
 
-open GuppyVerif.Dataflow (liveRun liveInit)
+open GuppyVerif.Dataflow (liveRun liveInit liveRun_terminates liveBound livePairs liveUniv)
 
-/-! ### the model's fuel suffices -/
+theorem length_pairs {α β : Type} (u : List β) : ∀ l : List α,
+    (l.flatMap fun b => u.map fun x => (b, x)).length = l.length * u.length := by
+  intro l
+  induction l with
+  | nil => simp
+  | cons a l ih => simp [List.flatMap_cons, ih, Nat.add_mul, Nat.add_comm]
 
 theorem length_flatMap_eq {α β : Type} (f : α → List β) : ∀ l : List α,
     (l.flatMap f).length = (l.map fun a => (f a).length).sum := by
@@ -14,41 +20,30 @@ theorem length_flatMap_eq {α β : Type} (f : α → List β) : ∀ l : List α,
   | nil => simp
   | cons a l ih => simp [List.flatMap_cons, ih]
 
-/-- the liveness worklist inside `checkCfg` never runs out of fuel, whatever the scheduler -/
-theorem liveRun_flow_isSome (P : Prog) (sc : Blk → Scope) (init : List Leaf) (sched : List Blk → Blk) :
-    (liveRun (flowCfg P sc) sched (liveFuel (flowCfg P sc) init) (liveInit (flowCfg P sc) init)).isSome = true := by
-  let g := flowCfg P sc
-  let U := init ++ g.blocks.flatMap g.used
-  have hU : ∀ b ∈ g.blocks, ∀ x ∈ g.used b, x ∈ U := fun b hb x hx =>
-    List.mem_append_right _ (List.mem_flatMap.mpr ⟨b, hb, hx⟩)
-  have hp : ∀ b ∈ g.blocks, ∀ c ∈ g.pred b ++ g.dpred b, c ∈ g.blocks := by
-    intro b _ c hc
-    have : c ∈ P.blocks.filter (fun p => (P.succ p).contains b) ++ [] := hc
-    rw [List.append_nil] at this
-    exact (List.mem_filter.mp this).1
-  have hK : ∀ b ∈ g.blocks, (g.pred b ++ g.dpred b).length ≤ g.blocks.length := by
-    intro b _
-    show (P.blocks.filter (fun p => (P.succ p).contains b) ++ []).length ≤ P.blocks.length
-    rw [List.append_nil]
-    exact List.length_filter_le _ _
-  apply liveRun_isSome (U := U) (K := g.blocks.length) hU hp hK sched
-  · exact tinv_init g init U fun x hx => List.mem_append_left _ hx
-  · intro b hb; exact hb
-  · have hmu := mu_le g init U (fun _ => init)
-    have hlen : U.length = init.length + (g.blocks.map fun b => (g.used b).length).sum := by
-      show (init ++ g.blocks.flatMap g.used).length = _
-      rw [List.length_append, length_flatMap_eq]
-    unfold phi liveFuel liveInit
-    simp only
-    generalize hB : g.blocks.length = B at *
-    generalize hS : (g.blocks.map fun b => (g.used b).length).sum = S at *
-    generalize hu : U.length = u at *
-    generalize hm : mu g init U (fun _ => init) = m at *
-    have h1 : m ≤ (B + 1) * (u + 1) := Nat.le_trans hmu (Nat.mul_le_mul (Nat.le_succ B) (Nat.le_succ u))
-    have h2 : m * (B + 1) ≤ (B + 1) * (u + 1) * (B + 1) := Nat.mul_le_mul_right _ h1
-    have h3 : (B + 1) * (u + 1) * (B + 1) = (B + 1) * (B + 1) * (u + 1) := Nat.mul_right_comm _ _ _
-    have h4 : u + 1 = S + init.length + 1 := by omega
-    rw [h3, h4] at h2
+theorem liveBound_le_liveFuel (g : Dataflow.Cfg) (init : List Leaf) : liveBound g init ≤ liveFuel g init := by
+  unfold liveBound liveFuel livePairs
+  rw [length_pairs]
+  have hlen : (liveUniv g init).length = init.length + (g.blocks.map fun b => (g.used b).length).sum := by
+    unfold liveUniv
+    rw [List.length_append, length_flatMap_eq]
+  simp only
+  generalize g.blocks.length = B at *
+  generalize (g.blocks.map fun b => (g.used b).length).sum = S at *
+  generalize (liveUniv g init).length = u at *
+  subst hlen
+  have h1 : B * (init.length + S) + 1 ≤ (B + 1) * (S + init.length + 1) := by
+    rw [Nat.add_mul, Nat.mul_add, Nat.mul_add, Nat.mul_add]
+    have : B * (init.length + S) = B * S + B * init.length := by rw [Nat.mul_add, Nat.add_comm]
     omega
+  calc (B * (init.length + S) + 1) * (B + 1)
+      ≤ (B + 1) * (S + init.length + 1) * (B + 1) := Nat.mul_le_mul_right _ h1
+    _ = (B + 1) * (B + 1) * (S + init.length + 1) := Nat.mul_right_comm _ _ _
+    _ ≤ _ := Nat.le_add_right _ _
+
+/-- the liveness worklist inside `checkCfg` never runs out of fuel, whatever the scheduler -/
+theorem liveRun_flow_isSome (P : Prog) (hc : ∀ b ∈ P.blocks, ∀ c ∈ P.succ b, c ∈ P.blocks)
+    (sc : Blk → Scope) (init : List Leaf) (sched : List Blk → Blk) :
+    (liveRun (flowCfg P sc) sched (liveFuel (flowCfg P sc) init) (liveInit (flowCfg P sc) init)).isSome = true :=
+  liveRun_terminates (flowCfg P sc) (flowCfg_wf P hc sc) init sched _ (liveBound_le_liveFuel _ _)
 
 end GuppyVerif.Linearity
